@@ -186,9 +186,13 @@ def run(pid, tier, t0, which, seed_extra, ctl=True):
         obs, v, w, st = machine.validate(s, cs)
     verd = v if which == "V" else w
     tally = {}
+    reasons = {}
     evaluated = set()
     for (p, fl, inp, *_), x, o in zip(cs, verd, obs):
         x = x or "skip"
+        if x.startswith("skip:undefined"):
+            r = x.split(":", 2)[2] if x.count(":") >= 2 else "?"
+            reasons[r] = reasons.get(r, 0) + 1
         key = ":".join(x.split(":")[:2]) if x.startswith("skip") else x
         tally[key] = tally.get(key, 0) + 1
         head = x.split(":")[0]
@@ -217,6 +221,7 @@ def run(pid, tier, t0, which, seed_extra, ctl=True):
                     "variables, register, global array, X/x) x flag sets {'',O,o,j,s,W,H,M,m}; hand-written programs; "
                     "non-trivial = distinct program text whose run stayed inside the modelled domain and was decided",
             "verdicts": tally,
+            "undefined_reasons": dict(sorted(reasons.items(), key=lambda kv: -kv[1])[:40]),
             "mc": {"module": "MC_Machine", "distinct": mc["distinct"], "depth": mc["depth"],
                    "invariants": ["StatusOK", "BalancedAtEnd", "TopLevelBalanced", "ScopesMatch", "FrameRule"]},
             "trace_tlc": {k: st[k] for k in st if k != "extra"}, "exhaustive": False,
